@@ -888,7 +888,7 @@ class Interp(Engine):
         if ext is not None:
             return ext(self, args, kwargs)
         callee_contract = self.registry.by_fn.get(id(fn_u))
-        if self.in_clause and callee_contract is not None and not callee_contract.modifies and not callee_contract.modifies_maps \
+        if self.in_clause and callee_contract is not None and not callee_contract.modifies and not callee_contract.modifies_maps and not callee_contract.variant_modifies_maps \
                 and not callee_contract.modifies_lists:
             # a clause that mentions a (side-effect free) repo function means the function itself: evaluate its real body, so that
             # two mentions denote the same value; what that value is, is pinned down by the callee's own verified contract
@@ -1042,7 +1042,7 @@ class Interp(Engine):
                     if isinstance(lv, VList):
                         pt = next((vt[pname] for vt in c.variants.values() if pname in vt), None)
                         self.havoc_list(lv, "%s.%s'" % (c.key, pname), pt.elem if isinstance(pt, TList) else None)
-                for mexpr, kexpr in c.modifies_maps:
+                for mexpr, kexpr in c.modifies_maps + c.variant_modifies_maps.get(vt_name, []):
                     mobj = self.force(self.eval_clause(mexpr))
                     kval = self.eval_clause(kexpr)
                     self.map_havoc_key(mobj, kval)
